@@ -401,6 +401,11 @@ func genCase(t *rapid.T) *Case {
 		Yield:     rapid.IntRange(0, 3).Draw(t, "yield"),
 		Procs:     rapid.SampledFrom([]int{1, 2, 4, 16}).Draw(t, "gomaxprocs"),
 	}
+	// a quarter of the cases are wide (many workers / senders) and long
+	if rapid.IntRange(0, 3).Draw(t, "wide") == 0 {
+		c.Width = rapid.SampledFrom([]int{8, 16, 32, 64}).Draw(t, "wideWidth")
+		c.N = rapid.IntRange(2*c.Width, 4096).Draw(t, "longN")
+	}
 	if finiteOnly(c.Construct) {
 		c.Source = "slice"
 	}
@@ -574,5 +579,127 @@ func TestCloseRacesFirstRead(t *testing.T) {
 			vkit.Fail(t, tCloseRace, "C04:"+k, *c, "%s", why)
 		}
 		vkit.CaseN(tCloseRace, vkit.Hash(*c), reps, true, []string{"construct:" + c.Construct}, func() any { return *c })
+	})
+}
+
+// ---------------------------------------------------------------------
+// Many senders into one buffered pipe, consumer stops early: the stop has
+// to release every sender whichever send it races with ("every
+// interleaving of the stop with in-flight sends").  The window in which two
+// senders meet the last free slot is narrow, so these cases are cheap and
+// repeated very often; the goroutine count is polled first and the stack
+// dump only consulted when it does not come down.
+
+const tSenders = "TestParallelSendersStop"
+
+type sendersCase struct {
+	Construct string `json:"construct"` // ParallelBuffer | ProcessParallel+ChanSend
+	Width     int    `json:"width"`
+	N         int    `json:"n"`
+	Cut       int    `json:"cut"`
+	Stop      string `json:"stop"`   // close | cancel | close-cancel
+	Settle    int    `json:"settle"` // yield pattern between the last read and the stop
+	Procs     int    `json:"gomaxprocs"`
+}
+
+func runSenders(c *sendersCase, reps int) (string, string) {
+	if c.Procs > 0 {
+		old := runtime.GOMAXPROCS(c.Procs)
+		defer runtime.GOMAXPROCS(old)
+	}
+	limit := vkit.Limit()
+	in := make([]int, c.N)
+	for i := range in {
+		in[i] = i
+	}
+	if left := vkit.NoFunGoroutines(limit); len(left) > 0 {
+		return "harness", "library goroutines from an earlier case are still alive:\n" + stacks(left)
+	}
+	for rep := 0; rep < reps; rep++ {
+		base := runtime.NumGoroutine()
+		ctx, cancel := context.WithCancel(context.Background())
+		var it *fun.Iterator[int]
+		var done chan error
+		switch c.Construct {
+		case "ParallelBuffer":
+			it = fun.SliceIterator(in).ParallelBuffer(c.Width)
+		default:
+			buf := fun.Blocking(make(chan int, c.Width))
+			w := fun.SliceIterator(in).ProcessParallel(buf.Processor(), fun.WorkerGroupConfNumWorkers(c.Width))
+			it = buf.Producer().Iterator()
+			done = make(chan error, 1)
+			go func() { done <- w(ctx) }()
+		}
+		for i := 0; i < c.Cut; i++ {
+			var err error
+			if !within(limit, func() { _, err = it.ReadOne(ctx) }) {
+				cancel()
+				return "stuck", fmt.Sprintf("%s: ReadOne %d blocks for %v although the source still has items", c.Construct, i, limit)
+			}
+			if err != nil {
+				break
+			}
+		}
+		vkit.Yield(c.Settle)
+		switch c.Stop {
+		case "close":
+			_ = it.Close()
+			if done != nil {
+				cancel() // a worker group is stopped through its context
+			}
+		case "cancel":
+			cancel()
+		default:
+			_ = it.Close()
+			cancel()
+		}
+		if done != nil {
+			select {
+			case <-done:
+			case <-time.After(limit):
+				cancel()
+				return "stuck", fmt.Sprintf("ProcessParallel sending to a buffered pipe (%d workers) has not returned %v after its context was cancelled (repetition %d)", c.Width, limit, rep)
+			}
+		}
+		settled := vkit.Eventually(50*time.Millisecond, func() bool { return runtime.NumGoroutine() <= base })
+		if !settled {
+			if left := vkit.NoFunGoroutines(limit); len(left) > 0 {
+				cancel()
+				return "leak", fmt.Sprintf("%s width %d over %d items, stop=%s after %d items: %d library goroutines are still alive (repetition %d):\n%s", c.Construct, c.Width, c.N, c.Stop, c.Cut, len(left), rep, stacks(left))
+			}
+		}
+		cancel()
+	}
+	return "", ""
+}
+
+func TestParallelSendersStop(t *testing.T) {
+	var rc sendersCase
+	if ok, err := vkit.ReplayCase(tSenders, &rc); err != nil {
+		t.Fatal(err)
+	} else if ok {
+		if k, why := runSenders(&rc, vkit.Pick(3000, 20000)); why != "" {
+			vkit.Fail(t, tSenders, "C04:"+rc.Construct+"/"+k, rc, "%s", why)
+		}
+		return
+	}
+	reps := vkit.Pick(60, 200)
+	rapid.Check(t, func(t *rapid.T) {
+		if vkit.AlreadyFailed(tSenders) {
+			return
+		}
+		c := &sendersCase{
+			Construct: rapid.SampledFrom([]string{"ParallelBuffer", "ParallelBuffer", "ProcessParallel+ChanSend"}).Draw(t, "construct"),
+			Width:     rapid.SampledFrom([]int{2, 3, 4, 8, 16, 16, 32, 64}).Draw(t, "width"),
+			Stop:      rapid.SampledFrom([]string{"close", "cancel", "close-cancel"}).Draw(t, "stop"),
+			Settle:    rapid.SampledFrom([]int{0, 0, 1, 3, 4, 8}).Draw(t, "settle"),
+			Procs:     rapid.SampledFrom([]int{2, 4, 16, 16}).Draw(t, "gomaxprocs"),
+		}
+		c.N = rapid.IntRange(2*c.Width, 4096).Draw(t, "n")
+		c.Cut = rapid.IntRange(0, 3).Draw(t, "cut")
+		if k, why := runSenders(c, reps); why != "" {
+			vkit.Fail(t, tSenders, "C04:"+c.Construct+"/"+k, *c, "%s", why)
+		}
+		vkit.CaseN(tSenders, vkit.Hash(*c), reps, true, []string{"construct:" + c.Construct, fmt.Sprintf("width:%d", c.Width), "stop:" + c.Stop}, func() any { return *c })
 	})
 }
